@@ -33,16 +33,16 @@ PLAN = {
     "C05": {"runs": [eng("fo", "c05", 300, 6000), eng("fo", "c01", 100, 2000), eng("fo", "dfs", 24000, 300000, budget_s={"quick": 150, "thorough": 600})]},
     "C06": {"runs": [eng("fo", "c06", 300, 6000), eng("fo", "table", 0, 0), eng("fo", "dfs", 8000, 100000, budget_s={"quick": 120, "thorough": 400})]},
     "C04": {"runs": [eng("fo", "c04", 250, 5000), eng("fo", "c01", 120, 2000), eng("fo", "dfs", 24000, 300000, budget_s={"quick": 150, "thorough": 600})]},
-    "C08": {"runs": [eng("linz", "c08", 1500, 40000), eng("linz", "c08cleanup", 300, 6000), eng("linz", "c18del", 800, 8000), eng("linz", "c09pair", 2000, 20000)],
+    "C08": {"runs": [eng("linz", "c08", 1500, 40000), eng("linz", "c08cleanup", 800, 8000), eng("linz", "c18del", 800, 8000), eng("linz", "c09pair", 2000, 20000)],
             "trusted_extra": ["sync.RWMutex / sync.Map provide mutual exclusion and linearizable single-key operations; Go map iteration yields every entry present during the whole iteration exactly once",
                               "implementation coverage is statistical: the Go scheduler is not steered inside the backends"]},
     "C16": {"runs": [dict(engine="race", profile="c16", n={"quick": 1, "thorough": 1}, race=True, timeout={"quick": 900, "thorough": 3000})],
             "trusted_extra": ["the Go memory model, sync, sync/atomic, sync.Map and channel semantics are axioms of the footprint semantics",
                               "the lockset theorem is proved for the trace semantics of CacheModel/MemModel.lean; that this semantics matches the Go memory model document is assumed",
                               "the footprint table is hand-written; tools/gofacts (unverified, syntactic) re-derives every access with the lock held at it from /repo on every run and the table must cover it; which callbacks run under their caller's lock is asserted by hand (listed in coverage.footprint_tie)"]},
-    "C13": {"runs": [eng("xfer", "c13", 100, 1500), eng("xfer", "c14", 60, 600)],
+    "C13": {"runs": [eng("xfer", "c13", 100, 1500), eng("xfer", "c14", 150, 1000)],
             "trusted_extra": ["encoding/gob is modelled as the identity on {K,V,E,C} records decoded into fresh variables"]},
-    "C14": {"runs": [eng("xfer", "c14", 60, 600)],
+    "C14": {"runs": [eng("xfer", "c14", 150, 1000)],
             "trusted_extra": ["net/http, encoding/gob, reflect and the FNV fingerprint of a type are trusted; the fingerprint is an arbitrary function in the theorems"]},
     "C15": {"runs": [eng("inval", "c15", 300, 6000)]},
     "C17": {"runs": [eng("inval", "c17", 90, 900)]},
